@@ -142,7 +142,7 @@ def compare(ctx, iface, recipe, wrapper, depth, req_desc, bare, wrapped, count, 
         ctx.violation(f"inner-app-invoked-{count['n']}-times|{iface}|{wrapper}", case, "")
     if wrapped["status"] != bare["status"]:
         ctx.violation(f"status-differs|{iface}|{wrapper}", case, f"bare {bare['status']} wrapped {wrapped['status']}")
-    if wrapped["body"] != bare["body"]:
+    if wrapped["body"].replace(b": ping\n\n", b"") != bare["body"].replace(b": ping\n\n", b""):  # the number of keep-alive pings is a matter of timing
         b, w = bare["body"], wrapped["body"]
         how = "first-chunk-duplicated" if len(w) > len(b) and w.endswith(b) and b.startswith(w[:len(w) - len(b)]) else (
             "truncated" if b.startswith(w) else "other")
